@@ -84,8 +84,8 @@ func (e *recExporter) Export(_ context.Context, rm *metricdata.ResourceMetrics) 
 	}
 	defer e.inflight.Add(-1)
 	enter := e.w.clock.Tick()
-	pts, probs := e.w.extract(rm, e.reader)
-	co := &consumer{reader: e.reader, export: true, start: -1, end: enter, pts: pts, probs: probs}
+	pts, sps, probs := e.w.extract(rm, e.reader)
+	co := &consumer{reader: e.reader, export: true, start: -1, end: enter, pts: pts, sp: sps, probs: probs}
 	e.mu.Lock()
 	closed := e.closedAt != 0
 	e.exports++
